@@ -552,7 +552,17 @@ def run(tier: str, seed: int) -> dict:
         cands = total["failures"][clause]
         if clause.startswith("c20.config_roundtrip"):
             cands = sorted(cands, key=lambda f: (len(f["theme"]), repr(f["theme"])))
-            for f in cands[:8]:
+
+            def kind(f):
+                names = "".join(n for n, _ in f["theme"] if n not in LOWER_NAMES)
+                links = "".join(kw.get("link") or "" for _, kw in f["theme"])
+                return (":" in names, "=" in names, names != names.lower(), "%(" in links, "%" in links)
+
+            firsts = {}
+            for f in cands:
+                firsts.setdefault(kind(f), f)
+            cands = list(firsts.values()) + [f for f in cands if all(f is not g for g in firsts.values())]
+            for f in cands[:60]:
                 spec = minimise_theme(f["theme"])
                 key = repr(spec)
                 if key in seen:
@@ -577,7 +587,7 @@ def run(tier: str, seed: int) -> dict:
                     break
         else:
             cands = sorted(cands, key=lambda f: (f["steps"], repr(f["spec"])))
-            for f in cands[:8]:
+            for f in cands[:60]:
                 base_own, base_inherit, themes, program = f["spec"]
                 program = minimise_history(base_own, base_inherit, themes, program, clause)
                 again = [x for x in run_history(base_own, base_inherit, themes, program) if x[0] == clause]
